@@ -118,6 +118,9 @@ class FlowPolicy(Policy):
             cfg = cfg.emit(("call", ev, tuple(args), tuple(kwargs.items()), getattr(node, "lineno", 0)))
         elif self.track_calls and label:
             cfg = cfg.emit(("call", label, (), (), getattr(node, "lineno", 0)))
+        r = interp.builtin_call(node, fname, fval, args, kwargs, cfg, out)
+        if r is not None:
+            return r
         if isinstance(fval, FuncV) and (fval.name in self.inline or (label in self.inline)):
             return None  # let the interpreter inline it
         if isinstance(fval, FuncV) and fval.closure and self.inline_nested(fval):
